@@ -617,6 +617,7 @@ def c20_files(case):
     `vf_key`: the settings' mention of views_file is the KEY itself (`views_file: config/views.rules`), not a comment: a reference that
               dangles when the shape has no views.rules;
     `missing_source`: a second data source whose statement file does not exist;
+    `rules_text`: other content of an existing merchants.rules that the settings do not reference (transforms only, comments only, empty …);
     `extra_files`: files of the user's own inside the budget folder ({rel: text | {'text', 'mode'}})."""
     files, dirs = shape_files(case['shape'])
     st = files.get(REL['settings'])
@@ -626,6 +627,8 @@ def c20_files(case):
         if case.get('missing_source'):
             st = st.replace(SETTINGS_HEAD, SETTINGS_HEAD + MISSING_SOURCE)
         files[REL['settings']] = st
+    if case.get('rules_text') is not None and REL['rules'] in files:
+        files[REL['rules']] = case['rules_text']       # the user's merchants.rules says something else (no [rule] block, empty, …)
     return files, dirs
 
 
